@@ -53,6 +53,8 @@ def segment(evs, idx):
             out.append("Zero(%s)" % e["mw"])
         elif e["ev"] in ("Stutter",):
             out.append("[" + e["what"][:60] + "]")
+        elif e["ev"] == "Hang":
+            out.append("HANG(%s): %s" % (e["mw"], e["what"]))
         elif e["ev"] == "Note":
             out.append("note=" + json.dumps({k: v for k, v in e.items() if k != "ev"})[:600])
     return out
@@ -69,6 +71,8 @@ def run_life(c, args_list, what, need_observable=False):
         bad, res = c.validate_trace("TraceLifecycle", LIFE_CFG % ("TRUE" if need_observable else "FALSE"), trace,
                                     tag="TraceLifecycle_%d" % k, timeout=3000)
         evs = read_ndjson(trace) if bad else None
+        if s.get("hung") and not bad:
+            raise Infra("the life-cycle driver stopped early: a call into the library never returned")
         return k, s, bad, res, evs
 
     for k, s, bad, res, evs in c.parallel([lambda k=k, a=a: one(k, a) for k, a in enumerate(args_list)], max_workers=4):
